@@ -76,6 +76,7 @@ func c10Cases(tier string, seed int64) []core.Case {
 	cases = append(cases, core.Case{ID: "writer-blocked", Run: func(ctx *core.Ctx) core.Result { return c10WriterBlocked(ctx) }})
 	cases = append(cases, core.Case{ID: "unmount", Run: func(ctx *core.Ctx) core.Result { return c10Unmount(ctx, tier == "thorough") }})
 	cases = append(cases, core.Case{ID: "oversize-after-lower-negotiation", Run: func(ctx *core.Ctx) core.Result { return c10NegotiatedDown(ctx) }})
+	cases = append(cases, core.Case{ID: "shared-completion-channel", Run: func(ctx *core.Ctx) core.Result { return c10SharedDone(ctx) }})
 	cases = append(cases, core.Case{ID: "tagiface", Run: func(ctx *core.Ctx) core.Result { return c10TagIface(ctx) }})
 	return cases
 }
@@ -764,7 +765,7 @@ func c10Unmount(ctx *core.Ctx, thorough bool) core.Result {
 				}(i)
 			}
 			time.Sleep(time.Duration(round%7) * 50 * time.Microsecond)
-			c.Unmount()
+			go c.Unmount()
 			wg.Wait()
 			// calls after Unmount fail
 			if r := s.do(call{kind: "stat", fidn: 1}); r == "" {
@@ -869,9 +870,97 @@ func c10TagIface(ctx *core.Ctx) core.Result {
 				res.Violate("C10;tagiface;success-without-reply", "more pipelined requests succeeded than replies were delivered", nil)
 			}
 			res.Sig(fmt.Sprintf("tagiface|%d|%s", n, kind))
-			c.Unmount()
+			go c.Unmount()
 		}
 	}
+	return res
+}
+
+// c10SharedDone: non-blocking requests (Rpcnb) that share ONE unbuffered completion channel, as an event-loop style
+// application would use them; the connection fails; the application takes the completions one by one and between two
+// of them makes another call on the client (which must be refused at once). Every request is completed with an
+// error and nothing blocks.
+func c10SharedDone(ctx *core.Ctx) core.Result {
+	var res core.Result
+	for n := 2; n <= 5; n++ {
+		for _, kind := range []string{"close", "reset", "garbage"} {
+			ctx.Beat()
+			res.Evals++
+			base := stuckDump()
+			p := peer.New(8192, true)
+			sched.Install(sched.New(nil, nil))
+			errc := make(chan error, 1)
+			var c *go9p.Clnt
+			go func() {
+				var err error
+				c, err = go9p.Connect(p.Cli, 8192, true)
+				errc <- err
+			}()
+			if r := p.Next(W); r != nil {
+				p.Reply(r, p.Answer(r.Msg))
+			}
+			if err := <-errc; err != nil {
+				res.Inconclusive = "c10: connect failed"
+				return res
+			}
+			shared := make(chan *go9p.Req) // unbuffered, one for all
+			for i := 0; i < n; i++ {
+				rq := c.ReqAlloc()
+				rq.Tc = c.NewFcall()
+				rq.Done = shared
+				if err := go9p.PackTread(rq.Tc, uint32(70+i), uint64(i), 10); err != nil {
+					res.Inconclusive = "c10: pack failed"
+					return res
+				}
+				if err := c.Rpcnb(rq); err != nil {
+					res.Inconclusive = "c10: Rpcnb failed before the fault"
+					return res
+				}
+			}
+			p.Collect(n, W)
+			switch kind {
+			case "close":
+				p.Srv.Close()
+			case "reset":
+				p.Srv.Reset()
+			case "garbage":
+				_, _ = p.Srv.Write([]byte{7, 0, 0, 0, 99, 1, 0})
+			}
+			fin := make(chan struct{})
+			problem := ""
+			go func() {
+				defer close(fin)
+				for i := 0; i < n; i++ {
+					r := <-shared
+					if r.Err == nil {
+						problem = "a request completed without error although no reply was ever sent"
+					}
+					// the application reacts to the completion with another call
+					s := &sess{p: p, c: c, dotu: true}
+					if e := s.do(call{kind: "stat", fidn: 9}); e == "" {
+						problem = "a call issued after the connection failed returned success"
+					}
+				}
+			}()
+			sig := fmt.Sprintf("n=%d;%s", n, kind)
+			if stuck, ok := hung(fin, base); ok {
+				if problem != "" {
+					res.Violate("C10;shared-done;wrong-result;"+kind, problem, nil)
+				}
+			} else if stuck != "" {
+				res.Violate("C10;hang;shared-done;"+kind, fmt.Sprintf("%d non-blocking requests sharing one completion channel: after the connection failed (%s) the application, which makes a call between two completions, never got through", n, kind), stuck)
+			} else {
+				res.Inconclusive = "c10: shared-done scenario did not finish, no stable blocked caller"
+			}
+			p.Srv.Close()
+			go c.Unmount() // (takes the client's lock: not on this goroutine, the client may be wedged)
+			res.Sig("shared-done|" + sig)
+			if len(res.Violations) > 0 {
+				return res
+			}
+		}
+	}
+	res.Sample(map[string]interface{}{"scenario": "Rpcnb requests sharing one unbuffered completion channel, consumer calls the client between completions", "n": "2..5"})
 	return res
 }
 
@@ -986,7 +1075,7 @@ func c10WriterBlocked(ctx *core.Ctx) core.Result {
 			}
 			p.PauseReads(false)
 			p.Srv.Close()
-			c.Unmount()
+			go c.Unmount()
 			res.Sig("writer-blocked|" + sig)
 			if len(res.Violations) > 0 {
 				return res
